@@ -77,6 +77,7 @@ type vfPeerEvent struct {
 	Headers     []string `json:"headers,omitempty"` // "name=value"
 	RawHeaders  []string `json:"rawHeaders,omitempty"`
 	Identity    string   `json:"identity,omitempty"`
+	Alive       int      `json:"alive,omitempty"` // ProbeDial: how many of the server addresses seen so far accept connections right now
 	CertEcho    string   `json:"certEcho,omitempty"`
 	Limit       uint32   `json:"limit,omitempty"`
 }
@@ -155,6 +156,7 @@ func vfPeerClientMain() int {
 		_ = out.Flush()
 	}
 	received, answers := 0, 0
+	seenAddrs := map[string]bool{}
 	// requests are read by a goroutine so that held answers can be flushed when
 	// the runner goes quiet (it waits for all answers of a batch before sending more)
 	reqs := make(chan *conformancev1.ClientCompatRequest)
@@ -208,12 +210,25 @@ func vfPeerClientMain() int {
 		if script.Probe {
 			ev.Identity = vfProbeIdentity(req.Host, req.Port)
 		} else if script.ProbeDial {
-			if conn, err := net.DialTimeout("tcp", net.JoinHostPort(req.Host, fmt.Sprint(req.Port)), 5*time.Second); err != nil {
+			addr := net.JoinHostPort(req.Host, fmt.Sprint(req.Port))
+			if conn, err := net.DialTimeout("tcp", addr, 5*time.Second); err != nil {
 				ev.Identity = "dial-error: " + err.Error()
 			} else {
 				_ = conn.Close()
 				ev.Identity = "dial-ok"
+				ev.Alive = 1
 			}
+			// every other server address this client was ever sent to: still (or again) listening?
+			for other := range seenAddrs {
+				if other == addr {
+					continue
+				}
+				if conn, err := net.DialTimeout("tcp", other, time.Second); err == nil {
+					_ = conn.Close()
+					ev.Alive++
+				}
+			}
+			seenAddrs[addr] = true
 		}
 		vfPeerLog(ev)
 		action := script.Actions[req.TestName]
